@@ -75,6 +75,54 @@ Proof.
 Qed.
 Print Assumptions C10_blind_unpack_kinds.
 
+(* ---- the text level: the real functions take and return Base58Check strings -------------------
+   [text_env sha256 t]: sha256 has 32-byte output, the table passes C09's side conditions and has
+   the rows forge.py names with binary prefixes of the hard-coded lengths 3 / 4. *)
+Theorem C10_pinned_table_env : forall sha256, sha_ok sha256 -> text_env sha256 table43.
+Proof. exact text_env43. Qed.
+Print Assumptions C10_pinned_table_env.
+
+(* every address / key hash has a string; forge_address on it gives the model's bytes, and
+   unforge_address on those bytes gives back that very string *)
+Theorem C10_text_address : forall sha256 t, text_env sha256 t ->
+  forall tz_only a, wf_address a -> (tz_only = false \/ is_implicit (fst a) = true) ->
+  exists s, address_text sha256 t a = Ok s /\
+            forge_address_text sha256 tz_only s = Ok (forge_address tz_only a) /\
+            unforge_address_text sha256 t (forge_address tz_only a) = Ok s.
+Proof. exact text_address. Qed.
+Print Assumptions C10_text_address.
+
+Theorem C10_text_contract : forall sha256 t, text_env sha256 t ->
+  forall c : contract, wf_address (fst c) -> snd c <> [] ->
+  exists s, contract_text sha256 t c = Ok s /\
+            forge_contract_text sha256 s = Ok (forge_contract c) /\
+            unforge_contract_text sha256 t (forge_contract c) = Ok s.
+Proof. exact text_contract. Qed.
+Print Assumptions C10_text_contract.
+
+Theorem C10_text_key : forall sha256 t, text_env sha256 t ->
+  forall k, wf_public_key k ->
+  exists s, public_key_text sha256 t k = Ok s /\
+            forge_public_key_text sha256 s = Ok (forge_public_key k) /\
+            unforge_public_key_text sha256 t (forge_public_key k) = Ok s.
+Proof. exact text_public_key. Qed.
+Print Assumptions C10_text_key.
+
+(* a signature string in any notation forges to its raw bytes; those read back as a string (generic
+   notation) that forges to the same raw bytes *)
+Theorem C10_text_signature : forall sha256 t, text_env sha256 t ->
+  forall sg s, wf_signature sg -> signature_text sha256 t sg = Ok s ->
+  forge_base58_text sha256 t s = Ok (snd sg) /\
+  exists s', unforge_signature_text sha256 t (snd sg) = Ok s' /\ forge_base58_text sha256 t s' = Ok (snd sg).
+Proof. exact text_signature. Qed.
+Print Assumptions C10_text_signature.
+
+Theorem C10_text_chain_id : forall sha256 t, text_env sha256 t ->
+  forall c s, chain_id_text sha256 t c = Ok s ->
+  forge_base58_text sha256 t s = Ok c /\ unforge_chain_id_text sha256 t c = Ok s.
+Proof. exact text_chain_id. Qed.
+Print Assumptions C10_text_chain_id.
+
 (* non-vacuity: the boundary digests *)
 Example C10_example_boundary :
   unforge_key_hash (forge_key_hash (Tz2, x00 :: repeat x11 19)) = Ok (Tz2, x00 :: repeat x11 19) /\
